@@ -937,3 +937,6 @@ def check(facts, rep, tier, cfg):
     check_r7(facts, rep, crate)
     check_r8(facts, rep, crate)
     check_r9(facts, rep, crate)
+    rep.rule("C20.S7", "no new process-wide mutable state (static cell / lock / once-cell) in the files this property is anchored in")
+    import whomay
+    whomay.check_new_statics(facts, rep, "C20.S7", "C20")
